@@ -87,6 +87,10 @@ type c11World struct {
 	born   time.Time
 	suffix string // appended to every signature (names the wiring the run used)
 	state  c11State
+	roles  []string          // every open harness connection (pumped, identity-checked)
+	auth   map[string]bool   // roles whose connection is authenticated
+	mapObj map[string]string // mapping id -> object name
+	MH, MG *models.PortMapping // history world: migrated (L -> L2) and deleted mapping
 	query  interface {
 		QueryByPrefix(string, int) (map[string]string, error)
 	}
@@ -96,6 +100,8 @@ type c11World struct {
 type c11State struct {
 	Map  string // "" = active | revoked (by a party, record kept) | expired (ExpiresAt past, still stored) | inactive
 	Code string // "" = unused | revoked | expired (activation window past, record still stored) | activated
+	Hist bool   // object/connection history: a migrated mapping with its ex-listener L, a deleted mapping, and
+	// U2 = the first connection opened after an authenticated client W disconnected (phase-1 + failed phase-2 only)
 }
 
 var c11WorldSeq int
@@ -206,11 +212,22 @@ func c11NewWorldState(t testing.TB, run *vk.Run, extra func(w *c11World), st c11
 	w.query = q
 	r := run.Rand(fmt.Sprintf("world%d", c11WorldSeq))
 	w.mark = fmt.Sprintf("q%07x%04x", r.Int63()&0xfffffff, c11WorldSeq&0xffff)
-	for _, role := range []string{"V1", "V2", "S"} {
+	w.roles = append([]string{}, c11Roles...)
+	w.auth = map[string]bool{"V1": true, "V2": true, "S": true}
+	w.mapObj = map[string]string{}
+	first := []string{"V1", "V2", "S"}
+	if st.Hist {
+		first = append(first, "L", "L2", "W")
+	}
+	for _, role := range first {
 		c := n.NewClient("")
 		w.cl[role] = c
 		w.id[role] = c.ClientID
 		w.secret[role] = c.Secret
+		if role == "L" || role == "L2" {
+			w.roles = append(w.roles, role)
+			w.auth[role] = true
+		}
 	}
 	// the handshake spawns `go pushConfigToClient`; let those finish while the clients
 	// still have no mappings (nothing is pushed then), so no late push lands in a case
@@ -238,6 +255,25 @@ func c11NewWorldState(t testing.TB, run *vk.Run, extra func(w *c11World), st c11
 	}
 	w.M = mk("V1", "V2", "m")
 	w.MS = mk("S", "S", "ms")
+	var MW *models.PortMapping
+	if st.Hist {
+		// MH: created with listener L, then moved to L2 by the real migration operation;
+		// L keeps whatever index entries the operation leaves behind and is now an EX-party
+		w.MH = mk("L", "V2", "mh")
+		w.MG = mk("L", "V2", "mg")
+		MW = mk("W", "V2", "mw")
+		if err := n.CCS.GetPortMappingService().DeletePortMapping(w.MG.ID); err != nil {
+			t.Fatalf("c11: delete MG: %v", err)
+		}
+		if err := n.CC.MigrateClientMappings(w.id["L"], w.id["L2"]); err != nil {
+			t.Fatalf("c11: migrate: %v", err)
+		}
+		cur, err := n.CCS.GetPortMappingService().GetPortMapping(w.MH.ID)
+		if err != nil || cur.ListenClientID != w.id["L2"] {
+			t.Fatalf("c11: MH not migrated: %v %+v", err, cur)
+		}
+		w.MH = cur
+	}
 	mkCode := func(owner, tag string) *models.TunnelConnectionCode {
 		k, err := n.CCS.CreateConnectionCode(&services.CreateConnectionCodeRequest{TargetClientID: w.id[owner],
 			TargetAddress: "tcp://ta-" + tag + "-" + w.mark + ".internal:3306", Description: "desc-" + tag + "-" + w.mark,
@@ -280,6 +316,17 @@ func c11NewWorldState(t testing.TB, run *vk.Run, extra func(w *c11World), st c11
 	}
 	add("M", []string{"V1", "V2"}, mm(w.M, "m")...)
 	add("MS", []string{"S"}, mm(w.MS, "ms")...)
+	w.mapObj[w.M.ID], w.mapObj[w.MS.ID] = "M", "MS"
+	if st.Hist {
+		// parties are the CURRENT ListenClientID/TargetClientID of the stored mapping
+		add("MH", []string{"L2", "V2"}, mm(w.MH, "mh")...)
+		add("MG", nil, mm(w.MG, "mg")...) // deleted: nobody's
+		add("MW", []string{"W", "V2"}, mm(MW, "mw")...)
+		w.mapObj[w.MH.ID], w.mapObj[w.MG.ID], w.mapObj[MW.ID] = "MH", "MG", "MW"
+		for _, r := range []string{"L", "L2", "W"} {
+			add("C:"+r, []string{r}, w.secret[r])
+		}
+	}
 	kParties, kMarks := []string{"V2"}, []string{w.K.Code, w.K.ID, "ta-k-" + w.mark, "desc-k-" + w.mark}
 	ksMarks := []string{w.KS.Code, w.KS.ID, "ta-ks-" + w.mark, "desc-ks-" + w.mark}
 	if id, ok := activatedMappings["K"]; ok {
@@ -326,13 +373,31 @@ func c11NewWorldState(t testing.TB, run *vk.Run, extra func(w *c11World), st c11
 		}
 	}
 	w.repl = strings.NewReplacer(flat...)
+	if st.Hist {
+		// W (authenticated, owner of MW) goes away; U2 is the very next connection to get a
+		// control-connection record: it asks for a challenge for V1's id and answers it wrongly
+		w.cl["W"].CloseByPeer()
+		u2 := n.MustConnect("")
+		w.cl["U2"] = u2
+		w.roles = append(w.roles, "U2")
+		if r1, _ := u2.Phase1(w.id["V1"], "control"); r1 == nil || r1.Challenge == "" {
+			t.Fatalf("c11: phase-1 for U2 gave no challenge: %+v", r1)
+		}
+		if r2, _ := u2.Phase2(w.id["V1"], "00ff00ff", "control"); r2 != nil && r2.Success {
+			t.Fatalf("c11: garbage phase-2 accepted for U2")
+		}
+		if u2.ServerClosedTransport() {
+			t.Fatalf("c11: server closed U2 after the failed handshake; requester U2 cannot be built")
+		}
+		delete(w.cl, "W")
+	}
 	if extra != nil {
 		extra(w)
 	}
 	// drain whatever the setup produced, then take the baseline
 	for i := 0; i < 3; i++ {
 		runtime.Gosched()
-		for _, role := range c11Roles {
+		for _, role := range w.roles {
 			w.cl[role].DrainRaw()
 		}
 	}
@@ -345,6 +410,15 @@ func c11NewWorldState(t testing.TB, run *vk.Run, extra func(w *c11World), st c11
 
 func (w *c11World) close() { w.n.Close() }
 
+func (w *c11World) idRoles() []string {
+	out := make([]string, 0, len(w.id))
+	for r := range w.id {
+		out = append(out, r)
+	}
+	sort.Strings(out)
+	return out
+}
+
 func (w *c11World) dump() map[string]string {
 	m, err := w.query.QueryByPrefix("", 0)
 	if err != nil {
@@ -355,7 +429,7 @@ func (w *c11World) dump() map[string]string {
 
 func (w *c11World) identities() map[string]c11Ident {
 	out := map[string]c11Ident{}
-	for _, role := range c11Roles {
+	for _, role := range w.roles {
 		c := w.cl[role]
 		k := w.n.SM.GetControlConnection(c.ConnID)
 		i := c11Ident{Closed: c.ServerClosedTransport()}
@@ -369,7 +443,7 @@ func (w *c11World) identities() map[string]c11Ident {
 	return out
 }
 
-func (w *c11World) authed(role string) bool { return role == "V1" || role == "V2" || role == "S" }
+func (w *c11World) authed(role string) bool { return w.auth[role] }
 
 func (w *c11World) party(o *c11Obj, role string) bool { return o.Parties[role] }
 
@@ -457,6 +531,12 @@ func (w *c11World) aim(kind, req string) (m *models.PortMapping, k *models.Tunne
 	if strings.HasPrefix(kind, "aimB") {
 		return w.MS, w.KS, w.D["DS"], w.id["S"]
 	}
+	if strings.HasPrefix(kind, "aimH") {
+		return w.MH, w.K, w.D["D1"], w.id["V2"]
+	}
+	if strings.HasPrefix(kind, "aimG") {
+		return w.MG, w.K, w.D["D1"], w.id["V2"]
+	}
 	d = w.D["D1"]
 	if req == "V1" {
 		d = w.D["D2"]
@@ -521,6 +601,9 @@ func (w *c11World) bodies(ct byte, pt packet.Type, req string, thorough bool, se
 	// same bodies with every receiver/identity-looking body field naming a client that is
 	// NO party to the aimed mapping (and is not the requester): for commands that name a
 	// mapping the mapping decides who is reached, never the body
+	if w.MH != nil {
+		out = append(out, [2]string{"aimH", wf("aimH")}, [2]string{"aimG", wf("aimG")})
+	}
 	out = append(out, [2]string{"aimA-xids", c11OverrideIDs(wf("aimA"), w.id[w.thirdParty("aimA", req)])},
 		[2]string{"aimB-xids", c11OverrideIDs(wf("aimB"), w.id[w.thirdParty("aimB", req)])})
 	if (ct == byte(packet.DNSResolve) || ct == byte(packet.DNSQuery)) && !pt.IsCommandResp() {
@@ -640,7 +723,7 @@ func c11MergeIDs(body string, victim, other int64) string {
 // pump reads everything the server wrote to any harness end, records it, and plays
 // the target client for DNS forwards (so the 5 s forwarder wait never elapses).
 func (w *c11World) pump(out *c11Outcome, req string) {
-	for _, role := range c11Roles {
+	for _, role := range w.roles {
 		c := w.cl[role]
 		for i := 0; i < 64 && c.hc.Pending() > 0; i++ {
 			p := c.RecvNow()
@@ -807,7 +890,7 @@ func (w *c11World) diff(after map[string]string) []c11Change {
 				}
 			}
 		}
-		for _, role := range []string{"V1", "V2", "S"} {
+		for _, role := range w.idRoles() {
 			if c11WordContains(text, strconv.FormatInt(w.id[role], 10)) {
 				ch.Clients = append(ch.Clients, role)
 			}
@@ -885,7 +968,7 @@ func (w *c11World) exec(cs c11Case, seq int, settle bool) *c11Outcome {
 	out.Changes = w.diff(after)
 	w.snap = after
 	id2 := w.identities()
-	for _, role := range c11Roles {
+	for _, role := range w.roles {
 		if a, b := w.ident[role], id2[role]; a != b {
 			out.IdentChg = append(out.IdentChg, fmt.Sprintf("%s:%+v->%+v", role, a, b))
 		}
@@ -936,7 +1019,7 @@ func (w *c11World) bearer(cs c11Case, sent string) map[string]bool {
 }
 
 func (w *c11World) sharesMapping(a, b string) bool {
-	for _, name := range []string{"M", "MS"} {
+	for _, name := range w.mapObj {
 		if w.obj[name].Parties[a] && w.obj[name].Parties[b] {
 			return true
 		}
@@ -1040,12 +1123,7 @@ func (w *c11World) judge(cs c11Case, cmd *packet.CommandPacket, out *c11Outcome)
 				MappingID string `json:"mapping_id"`
 			}
 			if json.Unmarshal([]byte(cmd.CommandBody), &b) == nil {
-				switch b.MappingID {
-				case w.M.ID:
-					named = "M"
-				case w.MS.ID:
-					named = "MS"
-				}
+				named = w.mapObj[b.MappingID]
 			}
 			if named != "" {
 				o := w.obj[named]
@@ -1107,7 +1185,7 @@ func (w *c11World) judge(cs c11Case, cmd *packet.CommandPacket, out *c11Outcome)
 		}
 		run.Violation(fmt.Sprintf("C11:connection-state|cmd=%s|requester=%s", name, cls), detail(map[string]any{"change": chg}))
 	}
-	for _, role := range []string{"V1", "V2", "S"} {
+	for role := range w.auth {
 		k := w.n.SM.GetControlConnectionByClientID(w.id[role])
 		want := w.cl[role].ConnID
 		if w.ident[role].Closed || !w.ident[role].Registered {
@@ -1121,7 +1199,8 @@ func (w *c11World) judge(cs c11Case, cmd *packet.CommandPacket, out *c11Outcome)
 
 func (w *c11World) describe() map[string]any {
 	return map[string]any{"ids": w.id, "M": w.M.ID, "MS": w.MS.ID, "K": w.K.Code, "KS": w.KS.Code,
-		"D1": w.D["D1"].ID, "D2": w.D["D2"].ID, "DS": w.D["DS"].ID, "mark": w.mark, "mapping_state": w.state.Map, "code_state": w.state.Code,
+		"D1": w.D["D1"].ID, "D2": w.D["D2"].ID, "DS": w.D["DS"].ID, "mark": w.mark, "mapping_state": w.state.Map, "code_state": w.state.Code, "history_world": w.state.Hist,
+		"history_roles": "L=ex-listener of MH (migrated to L2 by MigrateClientMappings); MG=deleted mapping; W=authenticated owner of MW, disconnected; U2=first connection after W left, phase-1 for V1 + failed phase-2",
 		"roles": "U0=no handshake; U1=phase-1 for V1 only; V1=listen side of M; V2=target side of M, owner of K; S=unrelated, owns MS/KS/DS"}
 }
 
@@ -1195,6 +1274,7 @@ type c11Driver struct {
 	reached map[byte]bool
 	suffix  string
 	state   c11State
+	reqs    []string // requesters to iterate (default c11Roles)
 }
 
 func (d *c11Driver) world() *c11World {
@@ -1234,7 +1314,7 @@ func (d *c11Driver) one(ct byte, pt packet.Type, req, kind, forge string, bodyOf
 	}
 	w.judge(cs, cmd, out)
 	fp := w.fingerprint(cs, cmd, out)
-	d.run.Distinct(fmt.Sprintf("%d/%d/%s/%s/%s/%s/%s", ct, pt, req, kind, forge, d.state.Map, d.state.Code))
+	d.run.Distinct(fmt.Sprintf("%d/%d/%s/%s/%s/%s/%s/%v", ct, pt, req, kind, forge, d.state.Map, d.state.Code, d.state.Hist))
 	if out.Success {
 		d.run.Count("success_responses", 1)
 		d.reached[ct] = true
@@ -1290,7 +1370,11 @@ func (d *c11Driver) sweep(types []byte, pts []packet.Type, forges []string, thor
 	run := d.run
 	for _, ct := range types {
 		for _, pt := range pts {
-			for _, req := range c11Roles {
+			reqs := d.reqs
+			if reqs == nil {
+				reqs = c11Roles
+			}
+			for _, req := range reqs {
 				// body list is taken from a throw-away view of the current world (kinds only)
 				kinds := d.world().bodies(ct, pt, req, thorough, 0)
 				baseByKind := map[string]string{}
@@ -1311,7 +1395,7 @@ func (d *c11Driver) sweep(types []byte, pts []packet.Type, forges []string, thor
 						run.Count("metamorphic_body_id_pairs", 1)
 						if plain != base {
 							cls := "auth"
-							if req == "U0" || req == "U1" {
+							if strings.HasPrefix(req, "U") {
 								cls = "unauth"
 							}
 							run.Violation(fmt.Sprintf("C11:forged-field-changes-outcome|cmd=%s|field=body-receiver-ids|requester=%s", c11CmdName(ct, pt)+d.suffix, cls),
@@ -1330,7 +1414,7 @@ func (d *c11Driver) sweep(types []byte, pts []packet.Type, forges []string, thor
 						run.Count("metamorphic_pairs", 1)
 						if fp != base {
 							cls := "auth"
-							if req == "U0" || req == "U1" {
+							if strings.HasPrefix(req, "U") {
 								cls = "unauth"
 							}
 							run.Violation(fmt.Sprintf("C11:forged-field-changes-outcome|cmd=%s|field=%s|requester=%s", c11CmdName(ct, pt)+d.suffix, f, cls),
@@ -1416,9 +1500,9 @@ func TestVerifC11Table(t *testing.T) {
 	// object-state variants: the same commands against victims' objects that are revoked,
 	// expired (record still stored), inactive, activated
 	handled := append(append([]byte{}, registered...), special...)
-	states := []c11State{{"revoked", "revoked"}, {"expired", "expired"}, {"inactive", "activated"}}
+	states := []c11State{{Map: "revoked", Code: "revoked"}, {Map: "expired", Code: "expired"}, {Map: "inactive", Code: "activated"}}
 	if run.Thorough() {
-		states = append(states, c11State{"revoked", "activated"}, c11State{"expired", "revoked"}, c11State{"inactive", "expired"})
+		states = append(states, c11State{Map: "revoked", Code: "activated"}, c11State{Map: "expired", Code: "revoked"}, c11State{Map: "inactive", Code: "expired"})
 	}
 	for _, st := range states {
 		if d.w != nil {
@@ -1431,6 +1515,19 @@ func TestVerifC11Table(t *testing.T) {
 		run.Count("state_variant_worlds_swept", 1)
 		run.Count("state_variant_responses", run.Counter("success_responses")+run.Counter("refusal_responses")-before)
 	}
+	// object/connection history: ex-party L of a migrated mapping, a deleted mapping, and
+	// U2 = first connection after an authenticated client left
+	if d.w != nil {
+		d.w.close()
+		d.w = nil
+	}
+	d.state = c11State{Hist: true}
+	d.reqs = []string{"U2", "L", "L2", "V2", "S"}
+	okBefore := run.Counter("success_responses")
+	d.sweep(handled, []packet.Type{packet.JsonCommand}, []string{"ids"}, false)
+	run.Count("history_world_success_responses", run.Counter("success_responses")-okBefore)
+	run.Floor("history_world_success_responses", 20)
+	d.reqs = nil
 	if d.w != nil {
 		d.w.close()
 		d.w = nil
